@@ -101,10 +101,10 @@ func (impl Implementation) Dsteqr(compz lapack.EVComp, n int, d, e, z []float64,
 
 	type scaletype int
 	const (
-		down scaletype = iota + 1
+		none scaletype = iota
+		down
 		up
 	)
-	var iscale scaletype
 
 	for {
 		if l1 > n-1 {
@@ -159,6 +159,7 @@ func (impl Implementation) Dsteqr(compz lapack.EVComp, n int, d, e, z []float64,
 
 		// Scale submatrix in rows and columns L to Lend
 		anorm := impl.Dlanst(lapack.MaxAbs, lend-l+1, d[l:], e[l:])
+		iscale := none
 		switch {
 		case anorm == 0:
 			continue
